@@ -1769,7 +1769,21 @@ func SortServicesByCreationTime(services []*Service) []*Service {
 		if r := strings.Compare(i.Attributes.Name, j.Attributes.Name); r != 0 {
 			return r
 		}
-		return strings.Compare(i.Attributes.Namespace, j.Attributes.Namespace)
+		if r := strings.Compare(i.Attributes.Namespace, j.Attributes.Namespace); r != 0 {
+			return r
+		}
+		// Name and namespace are not unique for services that come from ServiceEntries: Attributes.Name is the
+		// hostname there, several ServiceEntries of one namespace can claim the same host, and a ServiceEntry with
+		// several addresses yields one Service per address. Registries list services in no particular order, so
+		// fall back on the object name, the hostname and the address: otherwise the order, and with it the Service
+		// that wins the hostname, would change from one push to the next.
+		if r := strings.Compare(i.Attributes.K8sAttributes.ObjectName, j.Attributes.K8sAttributes.ObjectName); r != 0 {
+			return r
+		}
+		if r := strings.Compare(string(i.Hostname), string(j.Hostname)); r != 0 {
+			return r
+		}
+		return strings.Compare(i.DefaultAddress, j.DefaultAddress)
 	})
 	return services
 }
